@@ -99,6 +99,59 @@ def metadata_failures(b, o):
     return out
 
 
+def probe_extensions(case):
+    """For every prefix of the main pipe: the prefix followed by a mutate that copies every column
+    that is in scope there (visible or hidden, through the reference of the point where it was last
+    visible) into a probe column.  Used to turn a broken L2 correspondence into a failing input: a
+    wrongly accepted verb shows up as a changed value of some in-scope column."""
+    import copy
+    from pipes import Instantiator
+    pid = case["pipe"]["id"]
+    out = Instantiator(case, "polars", {}).run()
+    res = []
+    n = len(case["pipe"]["steps"])
+    for k in range(1, n + 1):
+        if f"{pid}@{k}" not in out.points:
+            break
+        cur = out.points[f"{pid}@{k}"]
+        scope = set(cur._cache.cols.keys())
+        refs, seen = [], set()
+        for j in range(k, -1, -1):
+            t = out.points.get(f"{pid}@{j}")
+            if t is None:
+                continue
+            for name, uid in t._cache.name_to_uuid.items():
+                if uid in scope and uid not in seen:
+                    seen.add(uid)
+                    refs.append(["col", f"{pid}@{j}", name])
+        if not refs:
+            continue
+        c2 = copy.deepcopy(case)
+        c2["pipe"]["steps"] = c2["pipe"]["steps"][:k] + [["mutate", [[f"probe_{i}", r] for i, r in enumerate(refs)]]]
+        res.append(c2)
+    return res
+
+
+def search_failing_input(case, backend, ctx):
+    """After a broken L2 correspondence: look for a concrete input on which the property fails."""
+    try:
+        exts = probe_extensions(case)
+    except Exception:  # noqa: BLE001
+        return None
+    if not exts:
+        return None
+    obs = pipecheck.observe_all(exts)
+    v = {}
+    if ctx.build_ok:
+        v, _ = pipecheck.eval_cases("search", exts, obs)
+    for i, c in enumerate(exts):
+        fs = [(b, f) for b, f in failure_of(obs[i]["polars"], obs[i].get("sqlite"), v, i)
+              if not f["kind"].startswith("l2_")]
+        if fs:
+            return c, fs[0][0], fs[0][1], obs[i]
+    return None
+
+
 def same_failure(case, backend, f, coq_ok=True):
     """Predicate for the shrinker: does `case` still fail on `backend` in the same way?"""
     def pred(c):
@@ -195,6 +248,17 @@ def run(ctx, res, prop, profile, n_quick=300, n_thorough=4000, probe_ids=(), ext
             continue
         if f["kind"].startswith("l2_"):
             seen_sig.add(sig)
+            found = search_failing_input(cases[i], b, ctx)
+            if found is not None and findings.match(found[0], found[1], found[2], listed) is None:
+                fc, fb, ff, fo = found
+                payload = {"case": fc, "backend": fb, "failure": ff, "origin": origin[i] + " (probe extension after L2 mismatch)",
+                           "broken_correspondence": f["what"], "observed": {k: v.to_json() for k, v in fo.items()}}
+                if ctx.build_ok and fo[fb].ast_coq:
+                    payload["reference"] = pipecheck.expected_frame_text(fc, fo[fb])
+                res.violations.append({"what": f"{ff['what']} (found after: {f['what']}) [{origin[i]}]",
+                                       "found_input": True, "payload": payload})
+                reported += 1
+                continue
             res.violations.append({"what": f"{f['what']} [{origin[i]}]", "found_input": False,
                                    "payload": {"correspondence": f["what"], "case": cases[i], "backend": b,
                                                "origin": origin[i], "failure": f,
